@@ -251,7 +251,11 @@ def _execute(scn):
                     plans.append([a, b])
         else:
             plans = scn["faults"] or [None]
-        for p in plans:
+        for vi, p in enumerate(plans):
+            if vi % 50 == 49:
+                from ..core import gc_point
+
+                gc_point()
             if p is None:
                 rec = dry
                 plan = {}
